@@ -1,0 +1,62 @@
+//! Verification hook H3 (only compiled with `--cfg mos_verif`): seeded schedule perturbation.
+//!
+//! `point(site)` is called at the places of the debug adapter where the interleaving of the machine thread and the
+//! session thread matters (between reading the run state and executing an instruction, between reading the program
+//! counter and publishing `Stopped`, around the step commands).  With the environment variable `MOS_VERIF_SCHED=<seed>`
+//! set it yields or sleeps for a pseudo-random short time (at most `MOS_VERIF_SCHED_MAX_US` microseconds, default
+//! 1500), which widens race windows; without the variable it does nothing.  It never touches adapter state.
+use std::sync::atomic::{AtomicU64, Ordering};
+use std::time::Duration;
+
+// 0 = not initialised, 1 = disabled, otherwise the xorshift state
+static STATE: AtomicU64 = AtomicU64::new(0);
+static MAX_US: AtomicU64 = AtomicU64::new(1500);
+
+fn init() -> u64 {
+    let seed = std::env::var("MOS_VERIF_SCHED")
+        .ok()
+        .and_then(|v| v.trim().parse::<u64>().ok());
+    if let Some(max) = std::env::var("MOS_VERIF_SCHED_MAX_US")
+        .ok()
+        .and_then(|v| v.trim().parse::<u64>().ok())
+    {
+        MAX_US.store(max.max(1), Ordering::Relaxed);
+    }
+    match seed {
+        Some(seed) => {
+            // splitmix64 of the seed; never 0 or 1
+            let mut z = seed.wrapping_add(0x9E37_79B9_7F4A_7C15);
+            z = (z ^ (z >> 30)).wrapping_mul(0xBF58_476D_1CE4_E5B9);
+            z = (z ^ (z >> 27)).wrapping_mul(0x94D0_49BB_1331_11EB);
+            (z ^ (z >> 31)) | 2
+        }
+        None => 1,
+    }
+}
+
+pub fn point(site: u64) {
+    let mut s = STATE.load(Ordering::Relaxed);
+    if s == 0 {
+        s = init();
+        STATE.store(s, Ordering::Relaxed);
+    }
+    if s == 1 {
+        return;
+    }
+    // xorshift64; a racy update only picks another pseudo-random stream
+    s ^= s << 13;
+    s ^= s >> 7;
+    s ^= s << 17;
+    if s < 2 {
+        s = 0x2545_F491_4F6C_DD1D;
+    }
+    STATE.store(s, Ordering::Relaxed);
+    let r = s.wrapping_mul(0x2545_F491_4F6C_DD1D).wrapping_add(site) >> 16;
+    let max = MAX_US.load(Ordering::Relaxed);
+    match r % 8 {
+        0 | 1 | 2 => {}
+        3 => std::thread::yield_now(),
+        4 | 5 => std::thread::sleep(Duration::from_micros((r >> 8) % (max / 10 + 1))),
+        _ => std::thread::sleep(Duration::from_micros((r >> 8) % (max + 1))),
+    }
+}
